@@ -6,6 +6,7 @@ CONSTANTS
   Asset <- AssetU
   Cap <- CapU
   Genesis <- GenesisU
+  Info0 <- InfoU
   None <- NoneV
   Known <- KnownAll
 VIEW View
